@@ -18,6 +18,7 @@ import SkModel.ParStore
 import SkModel.Runner
 import SkModel.Collect
 import SkModel.Catalog
+import SkModel.NameRx
 import SkModel.Cache
 import SkModel.Fault
 import SkModel.Spec.Lines
@@ -579,6 +580,7 @@ def runCollectCase (j : Json) : Json :=
 /-! ### Catalog (C09) -/
 
 def toDirEntry (j : Json) : DirEntry :=
+  if (getD? j "cls").isNone then mkDirEntry (strF j "path") (boolF j "isfile") else
   let cls : NameCls := match strF j "cls" with
     | "live" => .live (strF j "stem")
     | "rotated" => .rotated (strF j "stem")
@@ -690,12 +692,22 @@ def runFaultCase (j : Json) : Json :=
     ("resultsJoined", toJson sF.resultsJoined), ("quiet", toJson sF.quiet),
     ("final", toJson sF.final)]
 
+/-- the hand-modelled regexes of search.py on a list of names -/
+def runNameRxCase (j : Json) : Json :=
+  Json.arr ((arrF j "names").map fun n =>
+    let e := mkDirEntry (asStr n) true
+    match e.cls with
+    | .plain => Json.arr #["plain", .null, toJson e.key]
+    | .live s => Json.arr #["live", Json.str s, toJson e.key]
+    | .rotated s => Json.arr #["rotated", Json.str s, toJson e.key])
+
 def handle (j : Json) : Json :=
   match strF j "kind" with
   | "task" => Json.mkObj [("model", runTaskCase j), ("specSimple", specSimpleCase j),
                           ("specSeq", specSeqCase j), ("specGate", specGateCase j)]
   | "fault" => Json.mkObj [("model", runFaultCase j)]
   | "cache" => Json.mkObj [("model", runCacheCase j)]
+  | "namerx" => Json.mkObj [("model", runNameRxCase j)]
   | "catalog" => Json.mkObj [("model", runCatalogCase j)]
   | "collect" => Json.mkObj [("model", runCollectCase j)]
   | "plan" => Json.mkObj [("model", runPlanCase j)]
